@@ -824,6 +824,8 @@ regp_recv(RegP *p, RPMaybeFrame *mf)
     case RP_EP_TCP: {
         const ssize_t rc = lenp_decode_source_to_sink(&p->ep.source, &recv);
         if (rc < 0) {
+            /* No frame is returned: the block is ours to release. */
+            regp_free(p, (RPFrame*)cs.buffer.data);
             return rc;
        }
     } break;
@@ -833,6 +835,8 @@ regp_recv(RegP *p, RPMaybeFrame *mf)
         RFC1055Context slip = RFC1055_CONTEXT_INIT_DEFAULT;
         const int rc = rfc1055_decode(&slip, &p->ep.source, &recv);
         if (rc < 0) {
+            /* No frame is returned: the block is ours to release. */
+            regp_free(p, (RPFrame*)cs.buffer.data);
             return rc;
         }
     } break;
